@@ -129,6 +129,7 @@ func (x *Exec) runTop() {
 		}
 		f.params = append(f.params, v)
 	}
+	x.topParams = f.params
 	ctx := f.contractCtx(x.entry)
 	ctx.Lookup = nil
 	for _, r := range fc.Requires {
@@ -189,6 +190,7 @@ func (x *Exec) runTop() {
 		pctx := f.contractCtx(r.heap)
 		pctx.Lookup = nil
 		bindResults(pctx, fc, fn.Signature, r.vals)
+		x.curResults = r.vals
 		for _, e := range fc.Ensures {
 			t, err := pctx.EvalBool(e.Expr)
 			if err != nil {
